@@ -135,7 +135,7 @@ func checkC02(c C02Case, r *Rec) *Violation {
 		// (d) the other ways of expressing the same subset give the same program
 		// (one of the six alternative spellings per mask, rotating with the case, so
 		// that every spelling meets every mask many times per run)
-		alt := int((hash64(src) + uint64(mask)) % (2 + directiveVariants + 4))
+		alt := int((hash64(src) + uint64(mask)) % (2 + directiveVariants + 6))
 		how, variant := HowMapSparse, 0
 		switch {
 		case alt == 1:
@@ -148,6 +148,10 @@ func checkC02(c C02Case, r *Rec) *Violation {
 			how = HowCopySet
 		case alt == 5+directiveVariants:
 			how = HowExtendSet
+		case alt == 6+directiveVariants:
+			how = HowExtendKeep
+		case alt == 7+directiveVariants:
+			how = HowCopyKeep
 		}
 		{
 			log := &Log{}
